@@ -30,6 +30,12 @@ var (
 func Open(path string) (*Database, error) {
 	db, err := badger.Open(badger.DefaultOptions(path))
 	if err != nil {
+		// A process kill while badger creates or deletes a memtable file can leave that file
+		// empty. badger then fails the first Open ("Create a new file") but sizes the file while
+		// doing so, and the next Open succeeds with all data. Try once more before giving up.
+		db, err = badger.Open(badger.DefaultOptions(path))
+	}
+	if err != nil {
 		return nil, fmt.Errorf("failed to open database: %w", err)
 	}
 	return &Database{
